@@ -569,7 +569,11 @@ func mergeStates(base int, states []*State) *State {
 	mergeMaps(func(s *State) map[string]Value { return s.glob }, func(k string, v Value) { out.glob[k] = v })
 	mergeMaps(func(s *State) map[string]Value { return s.ghost }, func(k string, v Value) { out.ghost[k] = v })
 	// heap
+	// every key ever touched anywhere (keys are materialised lazily, possibly only in discarded clones)
 	hkeys := map[string]bool{}
+	for k := range heapSorts {
+		hkeys[k] = true
+	}
 	for _, s := range live {
 		for k := range s.heap {
 			hkeys[k] = true
